@@ -2,6 +2,7 @@ import Drivers.Proto
 import St4sd.Model.TreeJson
 import St4sd.Model.TreeFlatten
 import St4sd.Model.TreeConf
+import St4sd.Model.TreeArray
 /-! Model driver for property C04 (layered resolution of a component configuration). -/
 open Lean Proto St4sd.Tree
 
@@ -94,6 +95,14 @@ def handle (j : Json) : Except String Json := do
     let prim ← getBool j "prim"
     let fuel ← getNat j "fuel"
     return match interp fuel ctx prim [] s with
+      | .ok r => jobj [("ok", jchars r)]
+      | .error e => jsonOfResult (.error e)
+  | "interpA" =>
+    -- FlowIR.interpolate on a text whose references may carry array indices (Model/TreeArray.lean)
+    let ctx ← fieldsOfJson (← j.getObjVal? "ctx")
+    let s ← getChars j "s"
+    let fuel ← getNat j "fuel"
+    return match interpA fuel ctx s with
       | .ok r => jobj [("ok", jchars r)]
       | .error e => jsonOfResult (.error e)
   | "override" =>
